@@ -179,7 +179,11 @@ class Dictionary:
             self._settings.CACHE_SIZE_LIMIT
             and len(cache) > self._settings.CACHE_SIZE_LIMIT
         ):
-            cache.pop(list(cache.keys())[0])
+            # evict the oldest entry, but never the one that was just written
+            for key in list(cache.keys()):
+                if key != self._settings.registry_key:
+                    cache.pop(key)
+                    break
 
     def _split_by_known_words(self, string: str, keep_formatting: bool):
         regex = self._get_split_regex_cache()
